@@ -226,7 +226,8 @@ def execute(plan: dict) -> dict:
             mapping, errors = box["r"]
             results.append((mapping, errors))
             h.update(repr((sorted(mapping.items()) if mapping is not None else None,
-                           sorted(errors) if errors is not None else None)).encode("utf-8", "surrogatepass"))
+                           sorted(errors) if errors is not None else None)
+                          ).replace(sb.root, "<SB>").encode("utf-8", "surrogatepass"))
             if offenders:
                 stats["trees_invalid"] = stats.get("trees_invalid", 0) + (1 if k == 0 else 0)
                 if errors is None or mapping is not None:
